@@ -508,13 +508,6 @@ func (s *session) stepLives(b *chain.RecBlock, srcRes chain.RawResult, last bool
 			fmt.Printf("[%s continuation %d -> %d]\n", s.name, lv.h0, src.Height)
 		}
 		compareAnswers(e, cq, want, got)
-		if verbose {
-			for _, q := range cq {
-				if q.mod == "farm" && strings.HasPrefix(q.id, "pool/") {
-					fmt.Printf("   DBG %s\n     src %s\n     imp %s\n", q.id, short(want[q.mod][q.id], 400), short(got[q.mod][q.id], 400))
-				}
-			}
-		}
 		differs := false
 		for _, m := range Modules {
 			if !rs(e)["durable"].(chain.M)[m].(bool) {
